@@ -219,9 +219,25 @@ def run(tier, seed):
     for ai, (tgt, o, form, attr, item) in enumerate(acc):
         c = Case("c17acc_%03d" % ai, "%s /*@inv*/\n%s\n" % (attr, item), meta={"target": tgt, "opt": o, "form": form}, run=False, expect="expand")
         acc_cases.append(c)
+    # effect table: an option that the table documents for a target has to *do* there what it does elsewhere. `?Send`: the futures of
+    # the async fns / methods of the target (no async_trait) are required to be `Send` without it and are not with it
+    eff_cases = []
+    eff_items = {"fn": "async fn target<D>(deps: &D, a: i32) -> i32 { a }",
+                 "mod": "mod target { pub async fn f<D>(deps: &D) -> u8 { 1 } pub fn g<D>(deps: &D) {} }",
+                 "trait": "trait Target { async fn f(&self, a: i32) -> i32; fn g(&self); }",
+                 "trait_target": "trait Target { async fn f(&self, a: i32) -> i32; }"}
+    eff_heads = {"fn": ["Foo"], "mod": ["Foo"], "trait": [], "trait_target": ["TargetImpl", "delegate_by = DelegateTarget"]}
+    for ek, item in eff_items.items():
+        extra = rng.choice([[], ["mock_api = M"], ["unimock = false"]])
+        for with_opt in (False, True):
+            o = eff_heads[ek] + extra + (["?Send"] if with_opt else [])
+            if with_opt:
+                o = eff_heads[ek][:1] + rng.sample(o[len(eff_heads[ek][:1]):], len(o) - len(eff_heads[ek][:1]))
+            eff_cases.append(Case("c17eff_%s_%d" % (ek, int(with_opt)), "#[::entrait::entrait(%s)] /*@inv*/\n%s\n" % (", ".join(o), item),
+                                  meta={"target": ek, "with": with_opt}, run=False, expect="expand"))
     for build, unimock in (("off", False), ("on", True)):
         ws = core.Workspace(PROP, build, unimock=unimock, expand_only=True)
-        ws.extend(cases[build] + (acc_cases if build == "off" else []))
+        ws.extend(cases[build] + ((acc_cases + eff_cases) if build == "off" else []))
         ws.write()
         ws.build()
     by = {}
@@ -288,5 +304,24 @@ def run(tier, seed):
             rep.violation(c.id, "accepted-undocumented:%s:%s" % (m["opt"], m["target"]),
                           "option `%s` (%s) is not documented for %s but was accepted (diagnostics: %s)" % (
                               m["opt"], m["form"], m["target"], msg[:200]), pinned=pin)
-    core.floors(rep, pairs_compared=n)
+    # effect table
+    def send_count(c):
+        recs = [r for r in c.records if r["status"] == "end" and r["line"] == c.marks["inv"]]
+        if not recs:
+            raise core.Inconclusive("no record for effect case %s" % c.id)
+        out = recs[0]["output"]
+        if "compile_error" in tok.idents(out[:8]):
+            return None
+        # `Send` required of a future: the identifier right after `Future<..> +` chains is enough to count (`+ :: core :: marker :: Send`)
+        return tok.idents(out[len(recs[0]["input"]) - 1:]).count("Send")
+    for ek in eff_items:
+        a, b = [c for c in eff_cases if c.meta["target"] == ek]
+        by[a.id], by[b.id] = a, b
+        na, nb = send_count(a), send_count(b)
+        rep.bump("effect_points")
+        if na is None or nb is None:
+            rep.violation(b.id, "effect:?Send:rejected:%s" % ek, "`?Send` is documented for %s targets but the invocation was rejected" % ek)
+        elif not (nb < na):
+            rep.violation(b.id, "effect:?Send:no-effect:%s" % ek, "`?Send` on a %s target with an async fn changes nothing: `Send` occurs %d times in the generated code without it and %d times with it" % (ek, na, nb))
+    core.floors(rep, pairs_compared=n, effect_points=4)
     return rep.finish(by)
